@@ -7,6 +7,11 @@
    the same keyword list) and the Custom* fields of haproxy's Global afterwards.
    `ctadds`/`ctdflt`/`ctobs`: the same for config-tcp-service through the real
    UpdateTCPPortConfig on a new TCPServicePort (tcp.CustomConfig).
+   `cmore`: the further backends the SAME updater configured in the same reconciliation
+   (before or after the first one), their annotations coming from several resources -- an
+   Ingress and a Service may carry the same namespace/name: the decision of EVERY (source,
+   snippet) pair of a reconciliation is compared with the model independently (the theorems of
+   Snippet.v are per snippet: no verdict may leak from one resource or backend to another).
    `cwritten` (cases that also run the real templates and writeToDisk): the bytes found in
    the written haproxy.cfg between the line the template emits before the snippets of the
    backend (a cookie line the harness provokes) and the line after them (a config-proxy
@@ -19,7 +24,8 @@ Record ccase := {
   cid : N; ckws : list string; cadds : list (N * string); cdflt : option string;
   cobs : list string; cglob : option (global_keys * global_out);
   ctadds : list (N * string); ctdflt : option string; ctobs : list string;
-  cwritten : option string }.
+  cwritten : option string;
+  cmore : list (list (N * string) * list string) }.
 
 Definition gout_eqb (a b : global_out) : bool :=
   str_list_eqb (o_global a) (o_global b) && str_list_eqb (o_defaults a) (o_defaults b) &&
@@ -29,6 +35,8 @@ Definition gout_eqb (a b : global_out) : bool :=
 Definition ccase_ok (c : ccase) : bool :=
   str_list_eqb (backend_custom (ckws c) (cadds c) (cdflt c)) (cobs c) &&
   str_list_eqb (tcp_custom (ckws c) (ctadds c) (ctdflt c)) (ctobs c) &&
+  forallb (fun m : list (N * string) * list string =>
+             str_list_eqb (backend_custom (ckws c) (fst m) (cdflt c)) (snd m)) (cmore c) &&
   match cwritten c with
   | None => true
   | Some w => String.eqb w (written (backend_custom (ckws c) (cadds c) (cdflt c)))
